@@ -197,6 +197,9 @@ sexp sexp_finalize_fileno (sexp ctx, sexp self, sexp_sint_t n, sexp fileno) {
   if (sexp_fileno_openp(fileno) && !sexp_fileno_no_closep(fileno)) {
     sexp_fileno_openp(fileno) = 0;
     close(sexp_fileno_fd(fileno));
+#if CHIBI_VERIF
+    sexp_verif_emit("\"e\":\"Close\",\"fd\":%d,\"gc\":%d", (int)sexp_fileno_fd(fileno), self == NULL);
+#endif
   }
   return SEXP_VOID;
 }
@@ -205,6 +208,10 @@ sexp sexp_finalize_port (sexp ctx, sexp self, sexp_sint_t n, sexp port) {
   sexp res = SEXP_VOID;
   if (sexp_port_openp(port)) {
     sexp_port_openp(port) = 0;
+#if CHIBI_VERIF
+    if (sexp_filenop(sexp_port_fd(port)) || sexp_port_stream(port))
+    sexp_verif_emit("\"e\":\"PortClose\",\"fd\":%d,\"gc\":%d,\"stream\":%d", sexp_filenop(sexp_port_fd(port)) ? (int)sexp_port_fileno(port) : -1, self == NULL, sexp_port_stream(port) != NULL);
+#endif
     if (sexp_oportp(port)) sexp_flush_forced(ctx, port);
 #ifndef PLAN9
     if (sexp_filenop(sexp_port_fd(port))
